@@ -673,6 +673,10 @@ func genIdx(t *rapid.T) []int {
 
 func genFault(t *rapid.T, kinds []string) *Fault {
 	f := &Fault{Kind: rapid.SampledFrom(kinds).Draw(t, "kind")}
+	if f.Kind == "write" && rapid.IntRange(0, 2).Draw(t, "unfunded") == 0 {
+		f.Sig = "unfunded"
+		return f
+	}
 	if fundsTxn(f.Kind) && rapid.IntRange(0, 2).Draw(t, "poolfault") == 0 {
 		f.Sig = rapid.SampledFrom(poolFaults).Draw(t, "poolsig")
 		return f
